@@ -127,9 +127,17 @@ def call_function(ex, qualname, args, kwargs, st, n, closure_node=None, self_obj
         if qualname not in ex.program.functions:
             if c is not None and not c.inline:
                 allargs0 = ([self_obj] if self_obj is not None else []) + list(args)
-                if len(allargs0) != len(c.params):
-                    raise PyExc(ExcV('TypeError'))
-                return call_contract(ex, c, dict(zip([p for p, _ in c.params], allargs0)), st, n)
+                pnames = [p for p, _ in c.params]
+                bound0 = dict(zip(pnames, allargs0))
+                for kn, kv in (kwargs or {}).items():
+                    # keyword arguments of a function known by its (assumed) contract only: bound by the parameter names of the contract
+                    if kn not in pnames or kn in bound0:
+                        raise OutOfSubset('call of %s at line %d does not fit its assumed contract (keyword %s)' % (qualname, n.lineno, kn))
+                    bound0[kn] = kv
+                if len(allargs0) > len(pnames) or len(bound0) != len(pnames):
+                    # the real function may well accept this call (defaults, other keywords): undecided, not a TypeError of the code
+                    raise OutOfSubset('call of %s at line %d does not fit its assumed contract (%d of %d arguments)' % (qualname, n.lineno, len(bound0), len(pnames)))
+                return call_contract(ex, c, bound0, st, n)
             raise OutOfSubset('unknown function %s' % qualname)
         mi, node, parent = ex.program.functions[qualname]
         mi_name = mi.name
@@ -798,6 +806,8 @@ def builtin(ex, name, args, kwargs, st, n):
         return SV(PT('emptydict'))
     if name == 'bool' and len(args) == 1:
         return SV(ptypes.TBool, ex.truth(st, args[0]))
+    if name == 'open' and len(args) == 2 and args[1].t is not None and args[1].t.op == 'const' and str(args[1].t.val).startswith('w') and 'builtins.open#w' in ex.reg.contracts:
+        return call_external(ex, 'builtins.open#w', args, kwargs, st, n)         # open(path, 'w...'): the assumed contract of a file opened for writing
     if ('builtins.' + name) in ex.reg.contracts:
         return call_external(ex, 'builtins.' + name, args, kwargs, st, n)        # a builtin with an assumed contract (e.g. open)
     raise OutOfSubset('builtin %s at line %d' % (name, n.lineno))
